@@ -10,7 +10,9 @@
    uninitialised); dss are the slots driven by each operation.  None = a
    createBinding outside the slot array (no range check in the code). *)
 From Coq Require Import List ZArith.
-From RtoscV Require Import Auto.AutoModel Auto.AutoProofs Auto.AutoRegress.
+From Coq Require Import Reals.
+From Flocq Require Import IEEE754.Binary IEEE754.Bits.
+From RtoscV Require Import Auto.F32 Auto.AutoModel Auto.AutoMapModel Auto.AutoProofs Auto.AutoMapProofs Auto.AutoRegress.
 Import ListNotations.
 Local Open Scope Z_scope.
 
@@ -73,3 +75,104 @@ Theorem C19_learn_fifo_regress :
   map (fun q => (learning q, cc q, nrpn q)) (qslots t4) = [(-1, -1, 130); (1, -1, -1); (-1, -1, -1)] /\
   ds = [Drive 0 4 127].
 Proof. exact d18_refuted. Qed.
+
+(* ---- the value mapping (IEEE-754 bit-level model, Flocq) -------------------- *)
+(* [m_run logf expf ops (m_init n per r) = Some (st, mss)]: mss are the messages
+   handed to the backend by every operation of the history ops (createBinding,
+   clearSlot, clearSlotSub, setSlotSubGain/Offset, updateMapping, setSlot,
+   setSlotSub, handleMidi), for ANY logf/expf. *)
+
+(* every message an automation slot emits goes to the address of a parameter
+   that a createBinding of the history accepted, with that parameter's type *)
+Theorem C19_addr_type : forall logf_o expf_o ops n per r st mss,
+  m_run logf_o expf_o ops (m_init n per r) = Some (st, mss) ->
+  Forall (Forall (msg_bound (bound_params ops))) mss.
+Proof. exact run_addr_type. Qed.
+
+(* a float-typed linear parameter receives a value inside [min,max]: by the
+   clamp on the final value, no arithmetic fact needed (value not NaN) *)
+Theorem C19_in_range : forall (expf_o : f32 -> f32) s value,
+  used s = true -> s_type s = ch_f -> s_scale s = 0 ->
+  fle (s_min s) (s_max s) -> not_nan (lin value (cp1 s) (cp3 s)) ->
+  exists c, sub_output expf_o s value = [MsgF (s_path s) c] /\ fle (s_min s) c /\ fle c (s_max s).
+Proof. exact float_output_in_range. Qed.
+
+(* an int-typed parameter with integral bounds a <= b receives an integer in [a,b] *)
+Theorem C19_in_range_int : forall (expf_o : f32 -> f32) s value a b,
+  used s = true -> s_type s = ch_i ->
+  finite32 (s_min s) -> finite32 (s_max s) ->
+  val (s_min s) = IZR a -> val (s_max s) = IZR b -> a <= b ->
+  -2147483648 <= a -> b <= 2147483647 ->
+  not_nan (lin value (cp1 s) (cp3 s)) ->
+  exists z, sub_output expf_o s value = [MsgI (s_path s) z] /\ a <= z <= b.
+Proof. exact int_output_in_range. Qed.
+
+(* toggles receive true / false (true exactly when the mapped value exceeds 1/2) *)
+Theorem C19_toggle : forall (expf_o : f32 -> f32) s value,
+  used s = true -> s_type s = ch_T ->
+  sub_output expf_o s value = [MsgT (s_path s) (gt32 (lin value (cp1 s) (cp3 s)) f32_half)].
+Proof. exact toggle_output. Qed.
+
+(* the value never decreases when the slot value increases.
+   FULL STATEMENT (not proved): for gain > 0 and min <= max, for all slot values.
+   PROVED: under the side conditions [ordered control points] (cp1 <= cp3, which
+   is what gain > 0 and min <= max produce in updateMapping; checked by the
+   correspondence run, not proved) and [no overflow] (the two linear images are
+   finite floats). *)
+Theorem C19_monotone_partial : forall (expf_o : f32 -> f32) s v1 v2,
+  used s = true -> s_type s = ch_f -> s_scale s = 0 ->
+  finite32 (s_min s) -> finite32 (s_max s) -> (val (s_min s) <= val (s_max s))%R ->
+  finite32 (cp1 s) -> finite32 (cp3 s) -> (val (cp1 s) <= val (cp3 s))%R ->
+  (val v1 <= val v2)%R ->
+  finite32 (lin v1 (cp1 s) (cp3 s)) -> finite32 (lin v2 (cp1 s) (cp3 s)) ->
+  exists c1 c2, sub_output expf_o s v1 = [MsgF (s_path s) c1] /\
+                sub_output expf_o s v2 = [MsgF (s_path s) c2] /\ (val c1 <= val c2)%R.
+Proof. exact float_output_monotone. Qed.
+
+Theorem C19_monotone_int_partial : forall (expf_o : f32 -> f32) s v1 v2 a b,
+  used s = true -> s_type s = ch_i ->
+  finite32 (s_min s) -> finite32 (s_max s) ->
+  val (s_min s) = IZR a -> val (s_max s) = IZR b -> a <= b ->
+  -2147483648 <= a -> b <= 2147483647 ->
+  finite32 (cp1 s) -> finite32 (cp3 s) -> (val (cp1 s) <= val (cp3 s))%R ->
+  (val v1 <= val v2)%R ->
+  finite32 (lin v1 (cp1 s) (cp3 s)) -> finite32 (lin v2 (cp1 s) (cp3 s)) ->
+  exists z1 z2, sub_output expf_o s v1 = [MsgI (s_path s) z1] /\
+                sub_output expf_o s v2 = [MsgI (s_path s) z2] /\ z1 <= z2.
+Proof. exact int_output_monotone. Qed.
+
+(* at the default gain and offset slot values map linearly onto min..max.
+   FULL STATEMENT (not proved): for every declared range.
+   PROVED: under the side condition [default_points_exact mn mx] (the control
+   points updateMapping computes for gain 100 / offset 0 are bit-exactly the
+   bounds - a decidable check, true for the ranges of C19_default_points_examples)
+   a fresh binding maps v to clamp (v*(max-min)+min), and 0 goes to min. *)
+Theorem C19_default_linear_partial : forall (logf_o expf_o : f32 -> f32) p mn mx v,
+  p_type p = ch_f -> p_log p = false -> p_min p = Some mn -> p_max p = Some mx ->
+  default_points_exact mn mx = true ->
+  cp1 (bound_sub logf_o p) = mn /\ cp3 (bound_sub logf_o p) = mx /\
+  sub_output expf_o (bound_sub logf_o p) v = [MsgF (p_path p) (clamp (lin v mn mx) mn mx)].
+Proof. exact default_linear. Qed.
+
+Theorem C19_default_linear_zero : forall a b,
+  finite32 (lin f32_0 a b) -> val (lin f32_0 a b) = val a.
+Proof. exact lin_zero. Qed.
+
+Theorem C19_default_points_examples :
+  default_points_exact (b32_of_bits 0) (b32_of_bits 1123942400) = true /\
+  default_points_exact (b32_of_bits 3212836864) (b32_of_bits 1092616192) = true /\
+  default_points_exact (b32_of_bits 0) (b32_of_bits 1065353216) = true /\
+  default_points_exact (b32_of_bits 3263168512) (b32_of_bits 1115422720) = true.
+Proof. exact default_points_examples. Qed.
+
+(* the hypotheses of the monotonicity theorem are satisfiable: "/fa" in -1..10,
+   slot values 0.25 and 0.5 give 1.75 and 4.5 *)
+Theorem C19_monotone_nonvacuous :
+  used ex_sub = true /\ s_type ex_sub = ch_f /\ s_scale ex_sub = 0 /\
+  finite32 (s_min ex_sub) /\ finite32 (s_max ex_sub) /\ (val (s_min ex_sub) <= val (s_max ex_sub))%R /\
+  finite32 (cp1 ex_sub) /\ finite32 (cp3 ex_sub) /\ (val (cp1 ex_sub) <= val (cp3 ex_sub))%R /\
+  (val ex_v1 <= val ex_v2)%R /\
+  finite32 (lin ex_v1 (cp1 ex_sub) (cp3 ex_sub)) /\ finite32 (lin ex_v2 (cp1 ex_sub) (cp3 ex_sub)) /\
+  bits_of_b32 (clamp (lin ex_v1 (cp1 ex_sub) (cp3 ex_sub)) (s_min ex_sub) (s_max ex_sub)) = 1071644672 /\
+  bits_of_b32 (clamp (lin ex_v2 (cp1 ex_sub) (cp3 ex_sub)) (s_min ex_sub) (s_max ex_sub)) = 1083179008.
+Proof. exact monotone_nonvacuous. Qed.
